@@ -47,6 +47,31 @@ fn run_case(lines: &[String], out: &mut impl Write) {
             "timer" => {
                 if w[1] == "none" {
                     h.insert_source(Timer::from_duration(Duration::MAX), |_, _, _| TimeoutAction::Drop).unwrap();
+                } else if w[1] == "late" {
+                    // timer late MS [disabled]: registered with an unrepresentable deadline (nothing is armed), then
+                    // given a real one by set_deadline + update — which arms it, unless it was disabled in between
+                    let ms: i64 = w[2].parse().unwrap();
+                    let disabled = w.iter().any(|x| *x == "disabled");
+                    let nd = base + Duration::from_millis(ms as u64);
+                    let cell = Rc::new(std::cell::Cell::new(None));
+                    deadlines.push((ms, cell.clone()));
+                    let f = fired.clone();
+                    let c2 = cell.clone();
+                    let disp = calloop::Dispatcher::new(Timer::from_duration(Duration::MAX), move |_, _: &mut (), _: &mut ()| {
+                        f.borrow_mut().push(ms);
+                        c2.set(None);
+                        TimeoutAction::Drop
+                    });
+                    let tok = h.register_dispatcher(disp.clone()).unwrap();
+                    if disabled {
+                        h.disable(&tok).unwrap();
+                    }
+                    disp.as_source_mut().set_deadline(nd);
+                    h.update(&tok).unwrap();
+                    if !disabled {
+                        cell.set(Some(nd));
+                    }
+                    keep.push(Box::new(disp));
                 } else {
                     // timer MS [rearm R] [cancel|disable]: on its first expiry it re-arms itself R ms later; after the
                     // first dispatch it is removed / disabled from outside
